@@ -34,7 +34,7 @@ SerCall(st, s) ==
         v == IF s.m = "f" THEN (IF s.n = 64 THEN NaNHint(raw, ObsAt(st, s, 64)) ELSE Narrow(raw, s.n, FALSE, ObsAt(st, s, s.n)))
              ELSE IF s.m = "arr" /\ s.fl > 0 THEN NaNHints(raw, ObsAt(st, s, Len(raw)), s.fl)
              ELSE raw
-    IN [o |-> s.o, m |-> s.m, n |-> s.n, k |-> s.k, v |-> v, fl |-> s.fl, std |-> s.std]
+    IN [o |-> s.o, m |-> s.m, n |-> s.n, k |-> IF s.m = "bit" THEN "or" ELSE s.k, v |-> v, fl |-> s.fl, std |-> s.std]     \* add_unaligned_bit is the only single-bit method
 
 SerVerdict(st, s) ==
     LET c == SerCall(st, s)
